@@ -39,7 +39,8 @@ is_6531_local (const char *start, const char *end)
     int qpair = 0;
     int quote = 0;
     int ch;
-    int prev = 0; /* previous index of non-ASCII character */
+    int prev = 0; /* byte index of the previous character */
+    int pos = 0;  /* byte index of the current character */
     utf8_decode_t u;
 
 
@@ -48,9 +49,17 @@ is_6531_local (const char *start, const char *end)
 
     utf8_decode_init (start, end - start, &u);
     while ((ch = utf8_decode_next (&u)) >= 0) {
-        /* skip non-ASCII characters */
-        if (ch > 0x007f)
+        pos = utf8_decode_at_byte (&u);
+
+        /* non-ASCII characters are atext and qtextSMTP, but they can not
+         * be a part of quoted-pairSMTP.
+         */
+        if (ch > 0x007f) {
+            if (qpair)
+                return inverse(EEAV_LPART_NOT_ASCII);
+            prev = pos;
             continue;
+        }
 
         /* rfc5321 does not allow any CTRL chars */
 #ifndef RFC6531_FOLLOW_RFC5322
@@ -73,14 +82,13 @@ is_6531_local (const char *start, const char *end)
                 /* quote-strings are allowed at the start
                  * or with preciding '.' only
                  */
-                if (prev == 0 || start[prev] == '.')
+                if (pos == 0 || start[prev] == '.')
                     quote = 1;
                 else
                     return inverse(EEAV_LPART_MISPLACED_QUOTE);
             } break;
             case '.': {
                 /* '.' is allowed after an atom and only once */
-                int pos = utf8_decode_at_byte(&u);
                 if (pos >= 1 && start[prev] == '.')
                     return inverse(EEAV_LPART_TOO_MANY_DOTS);
                 if (pos == 0 || (start + pos + 1) == end)
@@ -120,22 +128,18 @@ is_6531_local (const char *start, const char *end)
                 /* peek at the next byte; do not consume it, so that it is
                  * decoded and judged by the main loop.
                  */
-                {
-                    int pos = utf8_decode_at_byte (&u);
+                if ((start + pos + 1) < end) {
+                    int next = *(unsigned char *) (start + pos + 1);
 
-                    if ((start + pos + 1) < end) {
-                        int next = *(unsigned char *) (start + pos + 1);
+                    if (next > 0x007f)
+                        break;
 
-                        if (next > 0x007f)
+                    switch (next) {
+                        case '"':
+                        case '\n': case '\r': case '\t': case ' ':
                             break;
-
-                        switch (next) {
-                            case '"':
-                            case '\n': case '\r': case '\t': case ' ':
-                                break;
-                            default:
-                                return inverse(EEAV_LPART_UNQUOTED_FWS);
-                        }
+                        default:
+                            return inverse(EEAV_LPART_UNQUOTED_FWS);
                     }
                 }
             } break;
@@ -145,7 +149,7 @@ is_6531_local (const char *start, const char *end)
 #ifdef RFC6531_FOLLOW_RFC5322
 next:
 #endif
-        prev = utf8_decode_at_byte (&u);
+        prev = pos;
     }
 
     /* invalid UTF-8 string */
